@@ -11,5 +11,5 @@ if ! BIN="$("$VERIF_DIR/build.sh" 2>"$LOG")"; then
 fi
 rm -f "$LOG"
 BIN="$(echo "$BIN" | tail -1)"
-export VERIF_DIR JDMC_BIN_DIR="$BIN" JDMC_TMP_DIR="$VERIF_DIR/.work/tmp"
+export VERIF_DIR JDMC_BIN_DIR="$BIN" JDMC_TMP_DIR="$VERIF_DIR/.work/tmp" JDMC_ORD_BIN="$BIN/jdmc-ord"
 exec "$BIN/jdmc" check "$ID" -tier "$TIER"
